@@ -25,7 +25,7 @@ class Contract:
     """
 
     def __init__(self, qual, params=None, requires=None, ensures=None, raises=(), writes=(), mod=None, allocates=False,
-                 result_ty="none", decreases=None, modular=True, assumptions=(), trusted=False, axioms=None):
+                 result_ty="none", decreases=None, modular=True, assumptions=(), trusted=False, axioms=None, mods=None):
         self.qual = qual
         self.params = params or {}
         self.requires = requires
@@ -33,6 +33,7 @@ class Contract:
         self.raises = list(raises)
         self.writes = tuple(writes)
         self.mod = mod
+        self.mods = mods or {}          # per-array override of mod
         self.allocates = allocates
         self.result_ty = result_ty
         self.decreases = decreases
@@ -42,8 +43,18 @@ class Contract:
         self.trusted = trusted          # assumed contract of an external: never verified, listed in evidence
 
 
+def mod_of(con, arr):
+    """modifies predicate for one heap array: (s0, r, **args) -> Bool, or None when the contract gives no frame."""
+    f = con.mods.get(arr)
+    if f is not None:
+        return f
+    return con.mod
+
+
 class LoopC:
-    def __init__(self, inv=None, decreases=None, var_types=None):
+    def __init__(self, inv=None, decreases=None, var_types=None, axioms=None, ghost=None):
+        self.ghost = ghost or {}        # name -> (s, v): term evaluated at loop entry (before the havoc), visible to inv as v.<name>
+        self.axioms = axioms            # (s0, s, v): ghost unfolding instances assumed at the loop head
         self.inv = inv
         self.decreases = decreases
         self.var_types = var_types or {}
@@ -104,7 +115,7 @@ class TaskResult:
 
 
 class Task:
-    def __init__(self, world, func, contract, name=None, goal_timeout_ms=10000, branch_timeout_ms=3000, max_paths=4000):
+    def __init__(self, world, func, contract, name=None, goal_timeout_ms=10000, branch_timeout_ms=3000, max_paths=4000, params=None):
         self.world = world
         self.func = func
         self.con = contract
@@ -113,6 +124,9 @@ class Task:
         self.goal_timeout_ms = goal_timeout_ms
         self.branch_timeout_ms = branch_timeout_ms
         self.max_paths = max_paths
+        self.params = dict(contract.params)
+        if params:
+            self.params.update(params)
         self.learned = {}
         self.promote_serials = set()
         self.worklist = []
@@ -143,17 +157,19 @@ class Task:
     def auto_frame(self, c, arrays):
         """automatic loop-invariant clauses: objects outside the function's modifies set are unchanged."""
         out = []
-        if self.con.mod is None or c.heap0 is None:
+        if c.heap0 is None:
             return out
         s0 = SV(c.heap0)
         r = z3.Int("af_r")
-        m = self.con.mod(s0, r, **self.spec_args)
         for a in sorted(arrays):
             if a == "top":
                 continue
+            mf = mod_of(self.con, a)
+            if mf is None:
+                continue
+            m = mf(s0, r, **self.spec_args)
             cur, old = c.heap.get(a), c.heap0.get(a)
-            out.append((f"frame:{a}", z3.ForAll([r], z3.Implies(z3.And(r > 0, r < s0.top, z3.Not(m)), cur[r] == old[r]),
-                                                patterns=[cur[r]])))
+            out.append((f"frame:{a}", smt.forall_pat([r], z3.Implies(z3.And(r > 0, r < s0.top, z3.Not(m)), cur[r] == old[r]), cur, r)))
         return out
 
     # ---- solving ------------------------------------------------------------------------------------
@@ -219,7 +235,7 @@ class Task:
         sig = inspect.signature(self.func)
         args = {}
         for pname, p in sig.parameters.items():
-            spec = self.con.params.get(pname)
+            spec = self.params.get(pname)
             if spec is None:
                 if p.default is not inspect.Parameter.empty:
                     args[pname] = ip.wrap(p.default)
@@ -374,12 +390,13 @@ class Task:
             cur, old = c.heap.cur[arr], c.heap0.get(arr)
             if z3.eq(cur, old):
                 continue
-            if unchanged or arr not in con.writes or con.mod is None:
-                goal = z3.ForAll([r], z3.Implies(z3.And(r > 0, r < s0.top), cur[r] == old[r]))
+            mf = mod_of(con, arr)
+            if unchanged or arr not in con.writes or mf is None:
+                goal = smt.FA([r], z3.Implies(z3.And(r > 0, r < s0.top), cur[r] == old[r]))
                 c.prove(f"{name}/frame:{arr}:unchanged", goal, kind="frame")
             else:
-                m = con.mod(s0, r, **a)
-                goal = z3.ForAll([r], z3.Implies(z3.And(r > 0, r < s0.top, z3.Not(m)), cur[r] == old[r]))
+                m = mf(s0, r, **a)
+                goal = smt.FA([r], z3.Implies(z3.And(r > 0, r < s0.top, z3.Not(m)), cur[r] == old[r]))
                 c.prove(f"{name}/frame:{arr}", goal, kind="frame")
         if not con.allocates and not z3.eq(c.heap.top, c.heap0.top):
             # allocation of garbage is harmless for every property here; only record it
